@@ -12,16 +12,16 @@ GETTER = 'yarel::class_store::CoreClassStore::'
 
 def run(rep):
     w = rep.world('dev')
-    l1(rep, w)
-    l2(rep, w)
-    l3(rep, w)
-    l4(rep, w)
-    l5(rep, w)
-    l6(rep, w)
-    l7(rep, w)
-    l8(rep, w)
+    rep.guard(l1, rep, w)
+    rep.guard(l2, rep, w)
+    rep.guard(l3, rep, w)
+    rep.guard(l4, rep, w)
+    rep.guard(l5, rep, w)
+    rep.guard(l6, rep, w)
+    rep.guard(l7, rep, w)
+    rep.guard(l8, rep, w)
     import c15
-    c15.n1(rep, w)     # a flag left over from an earlier failed run turns a later, unrelated try statement into a phantom error report
+    rep.guard(c15.n1, rep, w)     # a flag left over from an earlier failed run turns a later, unrelated try statement into a phantom error report
 
 
 def first_getter_from(f, b, limit=6):
